@@ -315,6 +315,10 @@ def merge(m, tier, seed):
 
 
 # ------------------------------------------------------------------------------------- workloads
+MUTATED_CALLER_MASKS = [0]
+PENDING_FAILS = []
+
+
 def make_group(rng, n=None, k=None):
     import menpo.shape as ms
     n = n or int(rng.integers(2, 31))
@@ -330,10 +334,24 @@ def make_group(rng, n=None, k=None):
     if rng.random() < 0.4:
         # a point joined to itself (face_lfpw_29 closes its one-point chin into such a loop): an edge like any other
         E = E + [(int(v), int(v)) for v in rng.choice(n, int(rng.integers(1, 3)), replace=False)]
-    A = gen.adjacency(n, E, True)
-    how = int(rng.integers(0, 3))
+    weighted = bool(E) and rng.random() < 0.35
+    A = gen.adjacency(n, E, True, weights=list(rng.uniform(0.2, 9.0, len(E))) if weighted else None)
+    how = int(rng.integers(0, 3)) if not weighted else 0      # (the other constructors take an edge list: no weights)
     if how == 0:
-        return ms.LabelledPointUndirectedGraph(pts, A, masks)
+        g = ms.LabelledPointUndirectedGraph(pts, A, masks)
+        if rng.random() < 0.5:
+            # the caller goes on using its own mask arrays (clears / refills its buffers): the group was given copies
+            exp = [(k_, v_.copy()) for k_, v_ in masks.items()]
+            for m_ in masks.values():
+                m_[...] = ~m_ if rng.random() < 0.5 else False
+            MUTATED_CALLER_MASKS[0] += 1
+            got = [(k_, np.array(v_, copy=True)) for k_, v_ in g._labels_to_masks.items()]
+            if [k_ for k_, _ in got] != [k_ for k_, _ in exp] or any(not np.array_equal(a_, b_) for (_, a_), (_, b_) in zip(got, exp)):
+                PENDING_FAILS.append(("editing_the_mask_arrays_handed_to_the_constructor_changed_the_group", "LabelledPointUndirectedGraph"))
+                # put things back so that the rest of the case judges an intact group
+                for (k_, v_) in exp:
+                    masks[k_][...] = v_
+        return g
     if how == 1:
         idx = OrderedDict((l, np.nonzero(m)[0]) for l, m in masks.items())
         return ms.LabelledPointUndirectedGraph.init_from_indices_mapping(pts, np.asarray(A.todense()), idx)
@@ -344,6 +362,9 @@ def make_group(rng, n=None, k=None):
 def w_groups(ctx, rng, i):
     import itertools
     g = make_group(rng)
+    while PENDING_FAILS:
+        clause, c_ = PENDING_FAILS.pop()
+        ctx.fail(clause, cls=c_)
     names = g.labels
     k = len(names)
     dropped = False
@@ -441,6 +462,7 @@ def w_labellers(ctx, rng, i):
     if len(Ls) != 31 and i == 0:
         ctx.see("n_labellers_found", len(Ls))
     name, f, N = Ls[i % len(Ls)]
+    OTHER_SIZES = sorted(set(n_ for _, _, n_ in Ls) - {N})        # a shape meant for another labeller is of the wrong size too
     kind = ["ndarray", "PointCloud", "Labelled"][(i // len(Ls)) % 3]
     d = 3 if ("bu3dfe" in name or "human36M" in name or rng.random() < 0.2) else 2
     pts = gen.points(rng, N, d, min_sep=0.001)
@@ -499,7 +521,7 @@ def w_labellers(ctx, rng, i):
     if not np.array_equal(o2.points, op):
         ctx.fail("return_mapping_changes_the_result", cls=name, mech=kind)
     # wrong sizes are rejected
-    for M in (N - 1, N + 1, N + 7, 0, 1, 2 * N):
+    for M in (N - 1, N + 1, N + 7, 0, 1, 2 * N) + tuple(OTHER_SIZES):
         if M == N or M < 0 or (M == 0 and kind == "Labelled"):
             continue
         try:
